@@ -120,8 +120,8 @@ PROPS["C07"] = {
 }
 PROPS["C10"] = {
     "level": "proof", "title": "The reported LSM shape is always well formed",
-    "lean_modules": ["Rain.Props.Lsm"], "components": ["lsm"], "sig_prefixes": ["c10:", "c09:"],
-    "technique": "Lean 4 invariant proof (step_inv, C10_wellformed_reachable: ordered disjoint levels, bounds = first/last entry, distinct file numbers, for every reachable state) + executable invariant evaluated on dumped states + structural cross-check of SSTables/NumFilesAtLevel against the table files after every quiescence and reopen",
+    "lean_modules": ["Rain.Props.Lsm", "Rain.Props.Builder"], "components": ["lsm", "builder"], "sig_prefixes": ["c10:", "c09:"],
+    "technique": "Lean 4 invariant proof (step_inv, C10_wellformed_reachable: ordered disjoint levels, bounds = first/last entry, distinct file numbers, for every reachable state) + executable invariant evaluated on dumped states + structural cross-check of SSTables/NumFilesAtLevel against the table files after every quiescence and reopen + version builder: Lean 4 model of VersionBuilder (accumulate_changes / apply_changes, overlap assertion) with proofs that replaying a whole manifest with one builder equals installing the edits one at a time (under the explicit freshness condition on file numbers, with kernel-checked counterexamples without it), that flush / trivial-move / compaction edits reproduce the LSM model's transitions and never trip the overlap assertion, and that the result agrees with the durability model's versionOf; the real builder is run against the model on synthetic versions and edit lists",
     "level_text": "Machine-checked proof that every valid transition preserves the invariant whose content is exactly the property's statement. " + LSM_TIE + "; after every quiescent step and every reopen the dump is cross-checked against a full scan of each table file and the descriptors.",
     "design_ref": "5 (C10)", "trusted_base": LSM_TB,
     "assumptions": ["the structured dump (hook) is used instead of the lossy SSTables debug string for non-UTF-8 keys; NumFilesAtLevel is compared with it"],
@@ -151,8 +151,8 @@ DUR_TB = DB_TB + [
 ]
 PROPS["C02"] = {
     "level": "proof", "title": "Acknowledged writes survive a crash at any point; batches are all-or-nothing",
-    "lean_modules": ["Rain.Props.Durable", "Rain.Props.C12", "Rain.Props.Codec"], "components": ["c02", "codec"], "sig_prefixes": ["c02:", "c09:", "c11:file-needed", "codec:"],
-    "technique": "Lean 4 proof that every prefix of an operation stream accepted by the durability monitor recovers to exactly the batches whose WAL append is in the prefix (C02_every_prefix_recovers) + the monitor evaluated on every recorded real stream + crash enumeration of EVERY prefix (and of prefixes of the recovery of crash images) on the real code with an acknowledged/in-flight oracle + record codecs: Lean 4 model of the write-batch record and the manifest record with theorems for ALL records (round trip, injectivity, every proper prefix of a batch record is rejected, trailing bytes / torn fields of a manifest record are rejected, field-boundary cuts are exactly the shorter records); the real encoders and decoders are run against the model on generated records and on damaged encodings",
+    "lean_modules": ["Rain.Props.Durable", "Rain.Props.C12", "Rain.Props.Codec", "Rain.Props.Builder"], "components": ["c02", "codec", "builder"], "sig_prefixes": ["c02:", "c09:", "c11:file-needed", "codec:"],
+    "technique": "Lean 4 proof that every prefix of an operation stream accepted by the durability monitor recovers to exactly the batches whose WAL append is in the prefix (C02_every_prefix_recovers) + the monitor evaluated on every recorded real stream + crash enumeration of EVERY prefix (and of prefixes of the recovery of crash images) on the real code with an acknowledged/in-flight oracle + record codecs: Lean 4 model of the write-batch record and the manifest record with theorems for ALL records (round trip, injectivity, every proper prefix of a batch record is rejected, trailing bytes / torn fields of a manifest record are rejected, field-boundary cuts are exactly the shorter records); the real encoders and decoders are run against the model on generated records and on damaged encodings + version builder: Lean 4 model of VersionBuilder (accumulate_changes / apply_changes, overlap assertion) with proofs that replaying a whole manifest with one builder equals installing the edits one at a time (under the explicit freshness condition on file numbers, with kernel-checked counterexamples without it), that flush / trivial-move / compaction edits reproduce the LSM model's transitions and never trip the overlap assertion, and that the result agrees with the durability model's versionOf; the real builder is run against the model on synthetic versions and edit lists",
     "level_text": "Machine-checked proof over the durability model (persistent image as complete records, recovery function, ordering monitor) for every monitored stream and every prefix, i.e. every crash point, including crashes during recovery and repeated crash-recover rounds (recovery's operations are part of the stream). Tied to the code on every run: the stream of mutating filesystem operations recorded by SimFs for generated histories (writes, multi-key batches, values spanning several 32 KiB log blocks, flushes, compactions, manifest switches, reopens with both log-reuse settings) is translated to model operations and must be accepted by the monitor; independently every prefix of the stream (an even sample for long streams, always around renames/removals/creations) becomes a crash image that is reopened on the real code, compared with acknowledged +/- in-flight contents, written to, closed, reopened; crashes inside the recovery of crash images are enumerated one level deep.",
     "design_ref": "5 (C02)", "trusted_base": DUR_TB,
     "assumptions": ["a write is acknowledged only after its WAL append completed (apply_changes, proved at protocol level: C05_wal_before_memtable)", "crash = prefix of the operation stream; a torn last write is C16"],
